@@ -15,7 +15,7 @@ by `clear()` since the C08 repair), so `at(token)` is "the routine has not been 
 Cabinet *positions* are reused (LIFO free list) and determine the order in which `cleanup()`
 visits routines, so cells and the free list are modelled.
 
-`fixed = true` is the code after patches/C18-01..03 (every queued waiter is woken when the
+`fixed = true` is the code after patches/C18-01..03 (and C18-04: no `create()` during `cleanup()`, in both variants) (every queued waiter is woken when the
 resource becomes available; a waiter registers again before every wait).  `fixed = false` is
 the code as found (one waiter woken, only on the unavailable→available edge; registration only
 before the first wait); it is kept for the counterexample theorems.
